@@ -92,6 +92,9 @@ FIXED = [
     "<math><msub><mi mathvariant='normal'>H</mi><mn>2</mn></msub><mi mathvariant='normal'>O</mi><mo>+</mo><menclose notation='box'><mi mathvariant='bold'>v</mi></menclose><mo>+</mo><mtext>for all </mtext><mi mathvariant='fraktur'>B</mi><mo>!</mo></math>",
     "<math><mmultiscripts><mi>C</mi><mn>6</mn><none/><mprescripts/><mn>14</mn><none/></mmultiscripts><mo>&#x2192;</mo><mover><mrow><mi>A</mi><mi>B</mi></mrow><mo>&#x2192;</mo></mover><mo>&#x2225;</mo><mi>&#x2220;</mi><mi>C</mi></math>",
     "<math><mi>x</mi></math>",
+    # tokens whose text special-case code rewrites or annotates on the live tree (roman numerals, units, times, mixed numbers, styled letters)
+    "<math><mn>XIV</mn><mo>+</mo><mi>VI</mi><mo>=</mo><mtext>XX</mtext><mo>-</mo><mn>iii</mn><mo>+</mo><msub><mi>x</mi><mn>IV</mn></msub></math>",
+    "<math><mn>MCMXCIV</mn><mo>&lt;</mo><mn>3</mn><mi intent=':unit'>km</mi><mo>+</mo><mn>2</mn><mi mathvariant='normal'>m</mi><mo>,</mo><mn>3</mn><mo>:</mo><mn>45</mn><mo>,</mo><mn mathvariant='bold'>XII</mn></math>",
 ]
 
 
